@@ -20,6 +20,8 @@ Added after the seeding rounds (DESIGN.md 6.6-6.8):
  BAND.gate / INVERT.sample  every tolerance gate is mapped to the rotation-angle band it captures (must lie outside the stated domain);
             each method inverts E(q) on the decision path taken by six kinds of sample rotation (exact closed forms of that path);
  DOMAIN-GUARD  interval analysis: every sqrt argument of chiaverini is provably non-negative.
+Added after seeding rounds 5 and 6 and refactoring round 4 (DESIGN.md 6.10-6.12):
+ INVERT.post  the eigenvector -> quaternion step interpreted with a symbolic eigen-solver; the NaN echo recognised by shape.
 """
 import ast
 import itertools
